@@ -82,11 +82,18 @@ CONSTANTS
                         \*          which RoundTrip is false (finding of this check); kept as negative control
     ReaderChecksRef,    \* reader rejects a missing / unparsable reference label
     ReaderChecksDigest, \* reader rejects a missing / unparsable digest label (and unparsable layers entries)
+    StopAtFirstMisfit,  \* the default handler's layers loop BREAKS at the first digest that does not fit (FALSE: it skips
+                        \* it and goes on - with mixed digest lengths the list gets a hole and is no prefix any more)
+    ReaderPure,         \* the reader does not modify the label map it is given (FALSE: it deletes the urls* keys from
+                        \* it after use - the snapshotter stores that very map, every later read has no URLs)
     ReaderResetsUrls,   \* a neighbour without a urls.<i> label has NO URLs (FALSE: it inherits the previous neighbour's)
     ReaderSkipsTarget   \* reader leaves occurrences of the target's own digest out of the neighbour list
 
 \* ---------------------------------------------------------------- tables
-DLen == 71
+DLen == 71                                  \* "sha256:" + 64 hex
+DLenBig == 135                              \* "sha512:" + 128 hex: digest ids >= BigDigestFrom (and < ManifestDigest)
+BigDigestFrom == 500
+DLenOf(d) == IF d >= BigDigestFrom /\ d < 900 THEN DLenBig ELSE DLen
 ULenTab == <<1, 1500, 3000, 4100>>          \* url ids 1..4; 0 is the empty string
 ULenMid == 30                               \* url ids 10..999
 ULenBig == 120                              \* url ids >= BigFrom
@@ -158,13 +165,16 @@ PatternManifests(n) ==
     LET base == {m \in [1..n -> [d : 1..MaxD, isLayer : BOOLEAN]] : Canonical(m) /\ TypeByDigest(m)}
     IN {[i \in 1..n |-> Entry(b[i].d, PatUrls(p, i), b[i].isLayer)] : b \in base, p \in Patterns}
 
-LongPatterns == {"none", "own", "many", "nonlayer3", "repeat"}
+LongPatterns == {"none", "own", "many", "nonlayer3", "repeat", "mixed"}
 LongEntry(p, i) ==
     CASE p = "none"      -> Entry(i, <<>>, TRUE)
       [] p = "own"       -> Entry(i, <<100 + i>>, TRUE)
       [] p = "many"      -> Entry(i, IF i <= 2 THEN [k \in 1..40 |-> 1000 * i + k] ELSE <<100 + i>>, TRUE)
       [] p = "nonlayer3" -> Entry(i, <<100 + i>>, i # 3)
       [] p = "repeat"    -> Entry(((i - 1) % 50) + 1, <<100 + ((i - 1) % 50) + 1>>, TRUE)
+      \* mixed digest lengths: 55 sha256 layers leave 93 bytes in the layers label of layer 1; entry 56 is a sha512
+      \* digest (136 with ',': the first misfit), the entries after it are sha256 again (72: would still fit)
+      [] p = "mixed"     -> Entry(IF i = 56 THEN BigDigestFrom + i ELSE i, <<100 + i>>, TRUE)
 LongManifests(ns) == {[i \in 1..n |-> LongEntry(p, i)] : n \in ns, p \in LongPatterns}
 LongTargets(n) == {t \in {1, 2, 3, 4, n - 57, n - 56, n - 55, n - 54, n} : t >= 1 /\ t <= n}
 
@@ -236,15 +246,16 @@ DefLoop(rest, k, nl, acc, ann) ==
     IF rest = <<>> THEN [acc |-> acc, ann |-> ann]
     ELSE LET l == Head(rest) IN
          IF ~l.isLayer THEN DefLoop(Tail(rest), k + 1, nl, acc, ann)
-         ELSE IF ValidateLayers /\ Len(LayersKey) + acc.len + DLen + 1 > MaxSize
-              THEN IF WholeDigests THEN [acc |-> acc, ann |-> ann]             \* break
+         ELSE IF ValidateLayers /\ Len(LayersKey) + acc.len + DLenOf(l.d) + 1 > MaxSize
+              THEN IF ~StopAtFirstMisfit THEN DefLoop(Tail(rest), k + 1, nl, acc, ann)   \* (negative control) continue
+                   ELSE IF WholeDigests THEN [acc |-> acc, ann |-> ann]        \* break
                    ELSE \* negative control: fill the remaining room with the head of the digest string
                         LET room == MaxSize - Len(LayersKey) - acc.len
                         IN [acc |-> IF room > 0 THEN Val(Append(acc.items, -l.d), acc.len + room + 1) ELSE acc,
                             ann |-> ann]
               ELSE LET key == UrlsIdxKey(IF UrlIdx = "layer" THEN nl ELSE k)
                    IN DefLoop(Tail(rest), k + 1, nl + 1,
-                              Val(Append(acc.items, l.d), acc.len + DLen + 1),
+                              Val(Append(acc.items, l.d), acc.len + DLenOf(l.d) + 1),
                               IF WriteEmptyUrlLabels \/ l.urls # <<>> THEN (key :> AWV(key, l.urls)) @@ ann ELSE ann)
 
 \* the annotations a descriptor carries in the manifest (keys are distinct). Under a URL key the foreign value is
@@ -259,7 +270,7 @@ DefaultAnn(man, t, ref, pf) ==
         c == ch[t]
         loop == DefLoop(SubSeq(ch, t, Len(ch)), 0, 0, EmptyVal, <<>>)
     IN (RefKey :> Val(<<ref>>, RefLen(ref)))
-       @@ (DigestKey :> Val(<<c.d>>, DLen))
+       @@ (DigestKey :> Val(<<c.d>>, DLenOf(c.d)))
        @@ loop.ann
        @@ (LayersKey :> Trimmed(loop.acc))
        @@ (PrefetchKey :> Val(<<pf>>, PfTab[pf].len))
@@ -272,7 +283,7 @@ CriLayersLoop(rest, acc) ==
     IF rest = <<>> THEN acc
     ELSE LET l == Head(rest) IN
          IF ~l.isLayer THEN CriLayersLoop(Tail(rest), acc)
-         ELSE LET add == DLen + (IF acc.len > 0 THEN 1 ELSE 0) IN
+         ELSE LET add == DLenOf(l.d) + (IF acc.len > 0 THEN 1 ELSE 0) IN
               IF ValidateLayers /\ Len(CriLayersKey) + acc.len + add > MaxSize THEN acc
               ELSE CriLayersLoop(Tail(rest), Val(Append(acc.items, l.d), acc.len + add))
 
@@ -287,7 +298,7 @@ ExtraAnn(man, t, ref, pf) ==
         c == ch[t]
         nl == CriLayersLoop(SubSeq(ch, t, Len(ch)), EmptyVal)
         wrapper == (CriRefKey :> Val(<<ref>>, RefLen(ref)))
-                   @@ (CriDigestKey :> Val(<<c.d>>, DLen))
+                   @@ (CriDigestKey :> Val(<<c.d>>, DLenOf(c.d)))
                    @@ (CriLayersKey :> nl)
                    @@ (CriManifestKey :> Val(<<ManifestDigest>>, DLen))
         \* for j, dstr := range strings.Split(nlayers, ","): l, ok := layerFromDigest(children, d); if !ok continue
@@ -459,23 +470,25 @@ PMalformedRejected(man, t, ref, it, rd, res) ==
                  /\ \A k \in 1..Len(res.neigh) : res.neigh[k].d > 0
 
 \* ---------------------------------------------------------------- state machine
-VARIABLES phase, cs, tgt, wl, lbl, tam, rd, res
-vars == <<phase, cs, tgt, wl, lbl, tam, rd, res>>
+\* lbl2 = the label map after the first read, res2 = what a SECOND read of that same map returns (the snapshotter
+\* stores the map it passed to fs.Mount and resolves from it again: Check refresh, re-mount after restart)
+VARIABLES phase, cs, tgt, wl, lbl, tam, rd, res, lbl2, res2
+vars == <<phase, cs, tgt, wl, lbl, tam, rd, res, lbl2, res2>>
 
 NoCase == [man |-> <<>>, ref |-> 0, pf |-> 0, fl |-> "none"]
 CaseRec == [family |-> Family, man |-> cs.man, ref |-> cs.ref, pf |-> cs.pf, fl |-> cs.fl, t |-> tgt, tam |-> tam, rd |-> rd]
 
 Init ==
-    /\ phase = "start" /\ cs = NoCase /\ tgt = 0 /\ wl = <<>> /\ lbl = <<>> /\ tam = <<>> /\ rd = "none" /\ res = Fail
+    /\ phase = "start" /\ cs = NoCase /\ tgt = 0 /\ wl = <<>> /\ lbl = <<>> /\ tam = <<>> /\ rd = "none" /\ res = Fail /\ lbl2 = <<>> /\ res2 = Fail
     /\ Emit => PrintT("VTAB " \o ToJson([ulen |-> ULenTab, ulenmid |-> ULenMid, ulenbig |-> ULenBig, bigfrom |-> BigFrom, exactfrom |-> ExactFrom,
-                                        manifestdigest |-> ManifestDigest, reflen |-> RefLenTab, refstr |-> RefStr, refvariants |-> RefVariants, pf |-> PfTab, dlen |-> DLen,
+                                        manifestdigest |-> ManifestDigest, reflen |-> RefLenTab, refstr |-> RefStr, refvariants |-> RefVariants, pf |-> PfTab, dlen |-> DLen, dlenbig |-> DLenBig, bigdigestfrom |-> BigDigestFrom,
                                         tkeys |-> TKeys, nvariants |-> NVariants, maxsize |-> MaxSize]))
 
 Choose(m, rp, fl) ==
     /\ phase = "start"
     /\ cs' = [man |-> m, ref |-> rp \div 10, pf |-> rp % 10, fl |-> fl]
     /\ phase' = "chosen"
-    /\ UNCHANGED <<tgt, wl, lbl, tam, rd, res>>
+    /\ UNCHANGED <<tgt, wl, lbl, tam, rd, res, lbl2, res2>>
 
 \* the handler annotates child t while containerd walks Children(manifest)
 Pick(t) ==
@@ -484,20 +497,22 @@ Pick(t) ==
     /\ wl' = Writer(cs.man, t, cs.ref, cs.pf, cs.fl)
     /\ lbl' = wl'
     /\ phase' = "picked"
-    /\ UNCHANGED <<cs, tam, rd, res>>
+    /\ UNCHANGED <<cs, tam, rd, res, lbl2, res2>>
 
 Tamper(o) ==
     /\ phase = "picked"
     /\ Len(tam) < MaxTamper
     /\ lbl' = ApplyTamper(lbl, o)
     /\ tam' = Append(tam, o)
-    /\ UNCHANGED <<phase, cs, tgt, wl, rd, res>>
+    /\ UNCHANGED <<phase, cs, tgt, wl, rd, res, lbl2, res2>>
 
 ReadBack(r) ==
     /\ phase = "picked"
     /\ (MatchedOnly /\ tam = <<>>) => Matched(cs.fl, r)
     /\ rd' = r
     /\ res' = ReadWith(Items(lbl), r)
+    /\ lbl2' = IF ReaderPure THEN lbl ELSE [k \in {x \in DOMAIN lbl : ~IsUrlKey(x)} |-> lbl[k]]
+    /\ res2' = ReadWith(Items(lbl2'), r)
     /\ phase' = "read"
     /\ UNCHANGED <<cs, tgt, wl, lbl, tam>>
     /\ Emit => PrintT("VCASE " \o ToJson(CaseRec'))
@@ -518,7 +533,12 @@ NeighbourUrlsPositional ==
     (phase = "read" /\ tam = <<>> /\ Matched(cs.fl, rd)) => PNeighbourUrlsPositional(cs.man, tgt, cs.fl, res)
 PrefetchSizeRoundTrips == phase \in {"picked", "read"} => PPrefetch(cs.man, tgt, cs.fl, wl, cs.pf)
 ExtraKeepsPreset == phase \in {"picked", "read"} => PExtraKeepsPreset(cs.man, tgt, cs.fl, wl)
-UrlsOwnOrNone == phase = "read" => PUrlsOwnOrNone(cs.man, tgt, res)
+UrlsOwnOrNone == phase = "read" => PUrlsOwnOrNone(cs.man, tgt, res) /\ PUrlsOwnOrNone(cs.man, tgt, res2)
+\* ReaderLeavesLabels: reading is pure - the label map is the same after the read
+ReaderLeavesLabels == phase = "read" => lbl2 = lbl
+\* RoundTripSecondRead: a second resolution from the same (stored) label map reproduces the source as well
+RoundTripSecondRead == (phase = "read" /\ tam = <<>> /\ Matched(cs.fl, rd)) =>
+                           (PRoundTrip(cs.man, tgt, cs.ref, cs.fl, res2) /\ PNeighbourUrlsPositional(cs.man, tgt, cs.fl, res2))
 MalformedMandatoryRejected == phase = "read" => PMalformedRejected(cs.man, tgt, cs.ref, Items(lbl), rd, res)
 \* internal consistency (not a property formula): the tamper log explains lbl
 TamperLogExplains == phase \in {"picked", "read"} => lbl = ApplyTampers(wl, tam)
